@@ -34,3 +34,31 @@ def table_stage(name: str, module: str, tier: str, replay: str, *, timeout: int 
         table.unlink()
         return out
     return stage(name, tier, build)
+
+
+def nbc_batch_stage(tier: str) -> dict:
+    """larger generated populations: harness generates, TLC (NBCBatch.tla) is the oracle, replay on the real class"""
+    from .common import seed
+    from .nbc_batch import gen_cases
+
+    def build(d: Path) -> dict:
+        n = 150 if tier == "quick" else 1200
+        cases = gen_cases(seed(), n)
+        (d / "cases.json").write_text(json.dumps(cases))
+        rows = d / "rows.ndjson"
+        r = run_tlc("NBCBatch", "NBCBatch.cfg", d, env={"VERIF_IN": str(d / "cases.json"), "VERIF_OUT": str(rows)},
+                    workers=1, timeout=3000, heap="4g")
+        tlc_must_pass(r, "NBCBatch")
+        out = {"tlc": {"distinct": r.distinct, "generated": r.generated, "violated": r.violated, "wall_s": round(r.wall_s, 1)},
+               "cases": n}
+        if r.violated:
+            out["model_violations"] = r.violated
+            return out
+        p = run_py(["harness/nbc_batch.py", str(d / "cases.json"), str(rows), str(d / "replay.json"), str(seed())], timeout=3000,
+                   env={"OMP_NUM_THREADS": "1", "OPENBLAS_NUM_THREADS": "1"})
+        if p.returncode != 0:
+            raise MachineryError("nbc_batch replay failed:\n" + p.stdout[-1500:] + p.stderr[-3000:])
+        out["replay"] = json.loads((d / "replay.json").read_text())
+        rows.unlink()
+        return out
+    return stage("nbc_batch", tier, build)
